@@ -271,3 +271,112 @@ impl Replayer {
         }
     }
 }
+
+impl Replayer {
+    /// C11: MC_Update histories.  The updated context and a context created fresh at the update point
+    /// (same configuration, same user files) receive the same continuation; renderings must agree.
+    pub fn mc_update(&mut self, v: &Value) {
+        let steps = v["steps"].as_array().cloned().unwrap_or_default();
+        let _ = std::fs::remove_dir_all(&self.home);
+        let home = self.home_slot("upd");
+        let acpath = home.join("openbangla-keyboard/autocorrect.json");
+        let write_ac = |file: &Value, stamp: u64| {
+            let mut m = serde_json::Map::new();
+            if let Some(o) = file.as_object() {
+                for (w, ver) in o {
+                    match ver.as_u64().unwrap_or(0) {
+                        0 => {}
+                        1 => { m.insert(w.clone(), Value::String(format!("{}a", w))); }
+                        _ => { m.insert(w.clone(), Value::String(format!("{}i", w))); }
+                    }
+                }
+            }
+            if m.is_empty() && stamp == 1 {
+                let _ = std::fs::remove_file(&acpath); // the context starts without a user file
+                return;
+            }
+            std::fs::write(&acpath, serde_json::to_string(&Value::Object(m)).unwrap()).unwrap();
+            let f = std::fs::OpenOptions::new().write(true).open(&acpath).unwrap();
+            // explicit modification times: stamp granularity cannot cause a false alarm
+            f.set_modified(std::time::UNIX_EPOCH + std::time::Duration::from_secs(1_700_000_000 + stamp * 10)).unwrap();
+        };
+        let mut used: Option<Ctx> = None;
+        let mut fresh: Option<Ctx> = None;
+        let mut nontrivial = false;
+        for (i, st) in steps.iter().enumerate() {
+            let case = || json!({"behaviour": v, "step": i});
+            match st["op"].as_str().unwrap_or("") {
+                "new" => {
+                    write_ac(&st["acfile"], 1);
+                    let cfg: Cfg = serde_json::from_value(st["cfg"].clone()).unwrap_or_default();
+                    match Ctx::new(&cfg, &home) {
+                        Ok(c) => used = Some(c),
+                        Err(p) => {
+                            self.rep.violation("panic", &format!("creating a context panicked: {}", p), case());
+                            return;
+                        }
+                    }
+                }
+                "acwrite" => write_ac(&st["acfile"], st["stamp"].as_u64().unwrap_or(2)),
+                "update" => {
+                    let cfg: Cfg = serde_json::from_value(st["cfg"].clone()).unwrap_or_default();
+                    let o = used.as_mut().unwrap().update(&cfg);
+                    self.rep.events += 1;
+                    if o.kind == "panic" {
+                        self.rep.violation("panic", &format!("update-engine panicked: {}", o.panic.unwrap_or_default()), case());
+                        return;
+                    }
+                    match Ctx::new(&cfg, &home) {
+                        Ok(c) => fresh = Some(c),
+                        Err(p) => {
+                            self.rep.violation("panic", &format!("creating a context panicked: {}", p), case());
+                            return;
+                        }
+                    }
+                }
+                "typefinish" => {
+                    let w = st["w"].as_str().unwrap_or("");
+                    let mut outs: Vec<Vec<Obs>> = Vec::new();
+                    for c in [used.as_mut(), fresh.as_mut()].into_iter().flatten() {
+                        let mut os = Vec::new();
+                        for ch in w.chars() {
+                            let code = self.keys.code_for_char(ch).unwrap();
+                            let o = c.key(code, 0, 0);
+                            self.rep.events += 1;
+                            if o.kind == "panic" {
+                                self.rep.violation("panic", &format!("step {}: engine panicked: {}", i, o.panic.clone().unwrap_or_default()), case());
+                                return;
+                            }
+                            os.push(o);
+                        }
+                        c.finish();
+                        outs.push(os);
+                    }
+                    if outs.len() == 2 {
+                        nontrivial = true;
+                        self.rep.compared += 1;
+                        for (a, b) in outs[0].iter().zip(outs[1].iter()) {
+                            if a.rendering() != b.rendering() {
+                                self.rep.violation(
+                                    "update",
+                                    &format!("step {} typing {:?}: the updated context answers {:?} sel={} ({}), a context created fresh with the new configuration over the same user files answers {:?} sel={} ({})",
+                                             i, w, a.cands, a.sel, a.kind, b.cands, b.sel, b.kind),
+                                    case(),
+                                );
+                                return;
+                            }
+                        }
+                    }
+                }
+                _ => {}
+            }
+        }
+        if nontrivial {
+            self.rep.nontrivial += 1;
+        }
+        if self.rep.samples.len() < 3 {
+            let evs: Vec<String> = steps.iter().map(|s| format!("{}{}", s["op"].as_str().unwrap_or(""), if s["w"].as_str().unwrap_or("").is_empty() { String::new() } else { format!("({})", s["w"].as_str().unwrap()) })).collect();
+            self.rep.sample(json!({"events": evs, "start_cfg": steps[0]["cfg"]["layout"], "final_cfg": steps.iter().rev().find(|s| s["op"] == "update").map(|s| s["cfg"]["layout"].clone())}));
+        }
+    }
+}
